@@ -6,6 +6,7 @@ import (
 	"go/ast"
 	"go/token"
 	"go/types"
+	"sort"
 	"strings"
 
 	"golang.org/x/tools/go/packages"
@@ -55,7 +56,7 @@ func switchCaseConsts(p *packages.Package, fd *ast.FuncDecl, typeName string) (m
 
 func checkC18(r *Run) propMeta {
 	meta := propMeta{Level: "other",
-		Explanation: "Decides a thin structural necessary condition of dump/load round-tripping: (R1) table agreement — the codec switches of the compression writer, the decompression reader, the validator and the file-extension table accept the same set and reject everything else with an error; every switch over the fragment phase handles the same phases; dump and load use the same record struct types, every field of FragmentNode/FragmentEdge is populated by the dump and read by the load path; (R2) writer lifecycle — in both phase functions the last partial shard is flushed before the success return and an open writer is aborted on error (shared with C19-R3); (R3) the manifest entry's Count, CompressedBytes, UncompressedBytes and SHA256 are taken from the writer's own counters and hasher in Close, and the loader compares count, size and digest. NOT decided: graph isomorphism, shard/batch boundary arithmetic, JSON value fidelity of properties, metrics fingerprints — all value-level.",
+		Explanation: "Decides a thin structural necessary condition of dump/load round-tripping: (R1) table agreement — the codec switches of the compression writer, the decompression reader, the validator and the file-extension table accept the same set and reject everything else with an error; every switch over the fragment phase handles the same phases; dump and load use the same record struct types, every field of FragmentNode/FragmentEdge is populated by the dump and read by the load path; (R2) writer lifecycle — in both phase functions the last partial shard is flushed before the success return and an open writer is aborted on error (shared with C19-R3); (R3) the manifest entry's Count, CompressedBytes, UncompressedBytes and SHA256 are taken from the writer's own counters and hasher in Close, and the loader compares count, size and digest. (R4) on the verifier's side (everything reachable from collectDatabaseMetrics) every keyset scan's total is counted from the database being scanned (countGraphEntitySnapshot), never copied from a manifest or checkpoint; (R5) no graph.ID is compared with the constant 0 (0 is a valid ID; cursor presence has its own boolean). NOT decided: graph isomorphism, shard/batch boundary arithmetic, JSON value fidelity of properties, metrics fingerprints — all value-level.",
 		Assumptions: []string{"encoding/json round-trips the record structs"},
 		TrustedBase: []string{"go/types", "this analyser"}}
 	if err := r.Load("./retriever/..."); err != nil {
@@ -265,8 +266,128 @@ func checkC18(r *Run) propMeta {
 			}
 		}
 	}
+	checkScanTotals(r, p)
 	r.Floor("C18-R1-codec-table", 4)
 	r.Floor("C18-R1-record-fields", 7)
 	r.Floor("C18-R3-manifest-entry", 5)
 	return meta
+}
+
+// checkScanTotals (R4): a keyset scan stops after `total` entities, so the total decides how much of the database is
+// read.  When a database is dumped, verified or measured, that total must be counted from the database being scanned
+// (countGraphEntitySnapshot); a total copied from the dump's manifest makes the verifier stop where the manifest says
+// the graph ends, so entities the destination has beyond that are never read and "verified" is reported for graphs
+// that differ.  (R5) zero is a valid entity ID (Neo4j numbers from 0): the presence of a keyset cursor is carried by
+// its own boolean and never inferred from comparing a graph.ID with 0.
+func checkScanTotals(r *Run, p *packages.Package) {
+	info := p.TypesInfo
+	cg := BuildCallGraph(r, func(path string) bool { return strings.HasSuffix(path, "/retriever") })
+	oa := newOriginAnalysis(r, cg)
+	oa.returnSummaries = true
+	// the verifier's "actual" side: everything reachable from collectDatabaseMetrics
+	verifierSide := map[*types.Func]bool{}
+	if root := cg.Func(modPath + "/retriever.collectDatabaseMetrics"); root != nil {
+		for fn := range cg.Reach([]*types.Func{root}, nil) {
+			verifierSide[fn] = true
+		}
+	} else {
+		r.Undecide("C18-R4: retriever.collectDatabaseMetrics not found")
+	}
+	scanners := map[string]int{"scanDatabaseNodesFrom": 3, "scanDatabaseRelationshipsFrom": 3, "scanDatabaseNodesWithProgressInterval": 3, "scanDatabaseRelationshipsWithProgressInterval": 3}
+	for _, f := range p.Syntax {
+		for _, d := range f.Decls {
+			fd, ok := d.(*ast.FuncDecl)
+			if !ok || fd.Body == nil {
+				continue
+			}
+			if _, isScanner := scanners[fd.Name.Name]; isScanner {
+				continue // wrappers forward their own total parameter; judged at their callers
+			}
+			ast.Inspect(fd.Body, func(n ast.Node) bool {
+				call, ok := n.(*ast.CallExpr)
+				if !ok {
+					return true
+				}
+				if thisFn, _ := info.Defs[fd.Name].(*types.Func); thisFn == nil || !verifierSide[thisFn] {
+					return true // the dump side resumes from the snapshot recorded in its own checkpoint; only the verifier must be independent
+				}
+				fn := calleeOf(info, call)
+				if fn == nil || fn.Pkg() != p.Types {
+					return true
+				}
+				idx, isScanner := scanners[fn.Name()]
+				if !isScanner || idx >= len(call.Args) {
+					return true
+				}
+				// confirm the parameter really is the total
+				if sig := fn.Type().(*types.Signature); sig.Params().At(idx).Name() != "total" {
+					r.Undecide("C18-R4: parameter %d of %s is %s, expected total", idx, fn.Name(), sig.Params().At(idx).Name())
+					return true
+				}
+				o := oa.originsOfExpr(p, fd, call.Args[idx], 0)
+				construct := funcDeclName(fd) + ":" + fn.Name() + "(total=" + exprString(r.Fset, call.Args[idx]) + ")"
+				counted := false
+				var foreign []string
+				for k := range o {
+					if strings.HasPrefix(k, "call:") && strings.HasSuffix(k, ".countGraphEntitySnapshot") {
+						counted = true
+					}
+					if strings.HasPrefix(k, "field:") && (strings.Contains(k, "Manifest.") || strings.Contains(k, "Checkpoint")) {
+						foreign = append(foreign, strings.TrimPrefix(k, "field:"))
+					}
+				}
+				sort.Strings(foreign)
+				switch {
+				case len(foreign) > 0:
+					r.Fail("C18-R4-scan-total", construct, call.Pos(), "the number of entities the scan will read is taken from %s, not counted from the database being scanned: entities beyond that count are never read, so a destination that gained nodes or relationships still verifies", strings.Join(foreign, ", "))
+				case counted:
+					r.Pass("C18-R4-scan-total", construct, call.Pos(), "the total is counted from the scanned database (countGraphEntitySnapshot)")
+				default:
+					r.Fail("C18-R4-scan-total", construct, call.Pos(), "the scan total does not come from countGraphEntitySnapshot (origins %v)", sortedKeys(o))
+				}
+				return true
+			})
+			// R5: no graph.ID compared with the constant 0
+			ast.Inspect(fd.Body, func(n ast.Node) bool {
+				be, ok := n.(*ast.BinaryExpr)
+				if !ok {
+					return true
+				}
+				switch be.Op {
+				case token.EQL, token.NEQ, token.LSS, token.GTR, token.LEQ, token.GEQ:
+				default:
+					return true
+				}
+				isID := func(e ast.Expr) bool {
+					t := info.TypeOf(e)
+					if t == nil {
+						return false
+					}
+					nt := namedOf(t)
+					return nt != nil && nt.Obj().Name() == "ID" && nt.Obj().Pkg() != nil && strings.HasSuffix(nt.Obj().Pkg().Path(), "/graph")
+				}
+				isZero := func(e ast.Expr) bool {
+					tv, ok := info.Types[e]
+					return ok && tv.Value != nil && tv.Value.ExactString() == "0"
+				}
+				var idSide, other ast.Expr
+				if isID(be.X) && info.Types[be.X].Value == nil {
+					idSide, other = be.X, be.Y
+				} else if isID(be.Y) && info.Types[be.Y].Value == nil {
+					idSide, other = be.Y, be.X
+				} else {
+					return true
+				}
+				construct := funcDeclName(fd) + ":" + exprString(r.Fset, be)
+				if isZero(other) {
+					r.Fail("C18-R5-zero-is-an-id", construct, be.Pos(), "%s is compared with 0 to decide something: 0 is a valid node and relationship ID (Neo4j numbers from 0), so an entity with ID 0 is treated as 'no cursor' and its page is read twice (the scan then aborts as not strictly increasing) or skipped", exprString(r.Fset, idSide))
+				} else {
+					r.Pass("C18-R5-zero-is-an-id", construct, be.Pos(), "ID compared with another ID")
+				}
+				return true
+			})
+		}
+	}
+	r.Floor("C18-R4-scan-total", 2)
+	r.Floor("C18-R5-zero-is-an-id", 1)
 }
